@@ -428,7 +428,7 @@ theorem fmid_run_start {g : FCfg} (ok : g.OK) {c : Conn} {n fuel : Nat}
       (.writing (run .header [] g.mc).out (run .header [] g.mc).st.isFinal)) c0.env.tr) [] :=
     ⟨by show [] ++ c0.env.tr.input ++ [] = g.W
         rw [hsame.input, hinp, List.nil_append, List.append_nil],
-      hstop1, hsame.ben hb, hremle, Or.inr ⟨_, rfl, by show c0.env.tr.wlog ++ _ = _; rw [hsame.wlog, hlog]⟩⟩
+      hstop1, hsame.ben hb, hremle, Or.inr ⟨_, rfl, by show c0.env.tr.wlog ++ _ = _; rw [hsame.wlog, hlog], [], rfl⟩⟩
   have hres := fparse_poll ok hst (hsame.em.trans hem) (hsc0.trans hsc) (hmx.trans hm) (hsame.hs.trans hev)
   obtain ⟨c', r, hh, hl, ho⟩ := FRes.of_steps (Steps.one hstep') (mkC_link c0 _ (.refl _)) hres
   have hpoll := hh.pollT (by
